@@ -23,13 +23,36 @@ SHRINK_FIELDS = ['intents']
 simplifications = c02.simplifications
 
 
+GDB_LANES = c02.GDB_LANES
+
+
 def generate(seed, tier, index):
+    if c02.in_gdb_world():
+        return c02.gen_gdb(seed, tier, ID)
     sc = c02.gen_common(seed, tier, index, profile_choices=('mixed', 'churn', 'objects', 'objects'))
     sc['prop'] = ID
     return sc
 
 
 def execute(sc):
+    if sc['config'].get('world') == 'gdb':
+        from . import c18
+        V = common.Viol()
+        sim, st, names, items, exc = c02.observe_gdb(sc)
+        V.counters.update(sim.counters)
+        if exc:
+            V.add('C03/alive-set', 'exception:' + c18.trigger_of(exc), exc[-1200:])
+        else:
+            A = common.Viol()
+            py2inc = oracles.check_attribution(st, sim.tracker, A, names=names)
+            if A.list:
+                V.bump('attribution_broken_not_judged_here')
+            oracles.check_lifetimes(st, sim.tracker, V, py2inc, names=names, items=items)
+        r = c02.finish_gdb(sc, sim, st, V)
+        destroyed = [it for _, it in st.lines if it.destroys is not None or it.implicit_destroys]
+        if not destroyed:
+            r['nt_keys'] = []
+        return r
     st, res, tr = c02.observe(sc)
     V = common.Viol()
     if res.exception is not None:
